@@ -103,7 +103,7 @@ def cases(draw, name):
                 and not S._is_integer_like(p) and pname not in ("scale", "background")):
             whole = [v for v in (1.0, 2.0, 3.0) if p.limits[0] <= v <= p.limits[1]]
             # (fractions, whose limits stop at 1, are left alone: a fraction of exactly 1 is outside a model's domain)
-            if len(whole) == 3 and draw(st.integers(0, 7)) == 0:
+            if len(whole) == 3 and draw(st.integers(0, 2)) == 0:
                 whole_choice[pname] = draw(st.sampled_from(whole))
     case = {"model": name, "source": src, "pd": pd,
             "lam": S.sig(10 ** draw(st.floats(math.log10(0.3), math.log10(3.0))), 5),
@@ -267,6 +267,10 @@ def check_scaling(case, rec):
         moved = dict(point)
         for i, (pname, p) in enumerate(S.expanded_parameters(info)):
             if p.type in ("magnetic", "orientation", "sld") or S._is_integer_like(p):
+                continue
+            if UNIT_EXP[p.units] == 0:
+                # pure numbers are the same on both sides of every relation: a branch on their exact value
+                # (fractal dimension 1, exponent 2) is taken identically and is no rounding coincidence
                 continue
             moved[pname] = point[pname] * (1 + 1e-6 * (0.37 + 0.61 * i))
         again = dict(relations(moved, False))
